@@ -29,6 +29,7 @@ def context():
     ENUMS_BEFORE = dict(ENUMS)
     load_source_types(os.path.join(REPO, 'zeep-lib/src'))
     load_source_types(os.path.join(REPO, 'zeep/src'))
+    load_std_enums()
     c.zeep = native.build_zeep()
     c.header = native_header(c.zeep)
     c.n_bodies = len([b for b in c.bodies.values() if b.kind == 'fn'])
